@@ -746,6 +746,19 @@ impl HostCtx {
                 });
                 "ok".into()
             }
+            "spawn_rt_ticker" => {
+                // the same, started with `tokio::spawn`: it lives on the host's runtime, not on the LocalSet of its
+                // software — crash and bounce must tear it down all the same
+                let h = self.h;
+                tokio::spawn(async move {
+                    let _g = DropGuard(h);
+                    loop {
+                        tokio::time::sleep(Duration::from_millis(1)).await;
+                        log(format!("EV ticker {h}"));
+                    }
+                });
+                "ok".into()
+            }
             "countof" => {
                 let c = turmoil::verif::host_counts(ip(t[1]));
                 // the public per-host counter must agree with the table
